@@ -175,8 +175,11 @@ impl Watcher {
             .authenticate_user(&appointment.to_vec(), &user_signature)
             .map_err(|_| AddAppointmentFailure::AuthenticationFailure)?;
 
-        let (has_subscription_expired, expiry) =
-            self.gatekeeper.has_subscription_expired(user_id).unwrap();
+        // The user may have been removed (outdated subscription) by a block processed since it was authenticated
+        let (has_subscription_expired, expiry) = self
+            .gatekeeper
+            .has_subscription_expired(user_id)
+            .map_err(|_| AddAppointmentFailure::AuthenticationFailure)?;
 
         if has_subscription_expired {
             return Err(AddAppointmentFailure::SubscriptionExpired(expiry));
@@ -327,8 +330,10 @@ impl Watcher {
             .authenticate_user(message.as_bytes(), user_signature)
             .map_err(|_| GetAppointmentFailure::AuthenticationFailure)?;
 
-        let (has_subscription_expired, expiry) =
-            self.gatekeeper.has_subscription_expired(user_id).unwrap();
+        let (has_subscription_expired, expiry) = self
+            .gatekeeper
+            .has_subscription_expired(user_id)
+            .map_err(|_| GetAppointmentFailure::AuthenticationFailure)?;
 
         if has_subscription_expired {
             return Err(GetAppointmentFailure::SubscriptionExpired(expiry));
@@ -475,15 +480,18 @@ impl Watcher {
             .authenticate_user(message.as_bytes(), signature)
             .map_err(|_| GetSubscriptionInfoFailure::AuthenticationFailure)?;
 
-        let (has_subscription_expired, expiry) =
-            self.gatekeeper.has_subscription_expired(user_id).unwrap();
+        let (has_subscription_expired, expiry) = self
+            .gatekeeper
+            .has_subscription_expired(user_id)
+            .map_err(|_| GetSubscriptionInfoFailure::AuthenticationFailure)?;
 
         if has_subscription_expired {
             return Err(GetSubscriptionInfoFailure::SubscriptionExpired(expiry));
         }
 
-        let (subscription_info, locators) = self.gatekeeper.get_user_info(user_id).unwrap();
-        Ok((subscription_info, locators))
+        self.gatekeeper
+            .get_user_info(user_id)
+            .ok_or(GetSubscriptionInfoFailure::AuthenticationFailure)
     }
 }
 
